@@ -180,10 +180,11 @@ impl HexNumber {
 
     /// Computes the actual numerical value represented by this hexadecimal number.
     pub fn compute_value(&self) -> f64 {
-        if let Some((exponent, _)) = self.exponent {
-            (self.integer * 2_u64.pow(exponent)) as f64
-        } else {
-            self.integer as f64
+        match self.exponent {
+            Some((exponent, _)) if self.integer != 0 => {
+                self.integer as f64 * 2_f64.powi(exponent.min(i32::MAX as u32) as i32)
+            }
+            _ => self.integer as f64,
         }
     }
 
